@@ -45,6 +45,8 @@ type qVec struct {
 	// Styles, when set (replay of a recorded case), are the rendering styles to run
 	Styles []int      `json:"styles,omitempty"`
 	Progs  []qProg    `json:"progs"`
+	WN     int        `json:"wn"`    // read attempts of a requester that is handed the response it waits for
+	Resps  int        `json:"resps"` // responses handed to requesters before the session ends
 	Inv    []qInv     `json:"inv"`
 	Out    [][]string `json:"out"`
 }
@@ -78,12 +80,26 @@ func stanzaLocal(st int) string {
 // render8 writes the items as the peer sends them; a local Close() ("lclose") splits the
 // input into chunks.
 func render8(items []qItem, st int, a *addrs) []string {
+	reqs := ""
+	out := render8b(items, st, a, &reqs)
+	out[0] = reqs + out[0]
+	return out
+}
+
+func render8b(items []qItem, st int, a *addrs, preqs *string) []string {
 	chunks := []string{}
+	reqs := ""
+	defer func() { *preqs = reqs }()
 	var b strings.Builder
-	for _, it := range items {
+	for idx, it := range items {
 		switch it.K {
 		case "el":
 			local := stanzaLocal(st)
+			if it.Kind == "resp" {
+				// the response to a request of the application that is pending since the session began (see serveSession)
+				reqs += markReq + fmt.Sprintf("rq%d", idx+1) + "\x00"
+				local = "iq"
+			}
 			from := ""
 			switch it.From {
 			case "own":
@@ -98,7 +114,9 @@ func render8(items []qItem, st int, a *addrs) []string {
 			default:
 				panic("unknown from " + it.From)
 			}
-			if it.Kind == "foreign" {
+			if it.Kind == "resp" {
+				fmt.Fprintf(&b, `<iq type="result" id="rq%d"%s to="%s">`, idx+1, from, a.OwnFull)
+			} else if it.Kind == "foreign" {
 				local = "x"
 				fmt.Fprintf(&b, `<x xmlns="%s"%s to="%s">`, nsOther, from, a.OwnFull)
 			} else {
@@ -139,6 +157,7 @@ func render8(items []qItem, st int, a *addrs) []string {
 		case "lclose":
 			chunks = append(chunks, b.String())
 			b.Reset()
+			b.WriteString(markClose)
 		case "text":
 			b.WriteString("junk")
 		case "comment", "pi", "directive", "otherstream":
@@ -338,7 +357,7 @@ func readMain(args []string) {
 					}
 					return nil
 				})
-				res := serveSession(v.Sess, v.Local, v.Was, render, h)
+				res := serveSessionW(v.Sess, v.Local, v.Was, render, h, v.WN)
 				input := res.Input
 				if res.Setup != "" {
 					setups++
@@ -363,6 +382,26 @@ func readMain(args []string) {
 							why = fmt.Sprintf("invocation %d: %s", i+1, w)
 							break
 						}
+					}
+				}
+				// responses to pending requests go to the requester (never to the handler: the invocation count above), one each,
+				// and no stream-level token reaches a requester either
+				if why == "" {
+					handed := 0
+					for _, w := range res.Waiters {
+						if w.Err == "" {
+							handed++
+						} else if strings.HasPrefix(w.Err, "panic") {
+							why = "requester " + w.ID + ": " + w.Err
+						}
+						for _, e := range w.Ev {
+							if e[0] == "c" {
+								why = fmt.Sprintf("a stream-level token reached the requester waiting for %s: %v", w.ID, e)
+							}
+						}
+					}
+					if why == "" && handed != v.Resps {
+						why = fmt.Sprintf("%d responses were handed to waiting requesters, expected %d (requesters: %v)", handed, v.Resps, res.Waiters)
 					}
 				}
 				oc := outcomeClass(res.Err)
@@ -394,7 +433,7 @@ func readMain(args []string) {
 					v := v
 					v.Styles = []int{style}
 					out.put(map[string]interface{}{"kind": "read", "r": ri, "sess": v.Sess.String(), "own": res.Addrs.Own, "vector": v, "input": input, "why": why,
-						"observed": log, "outcome": oc, "serve_error": errString(res.Err), "wire": res.Wire})
+						"observed": log, "requesters": res.Waiters, "outcome": oc, "serve_error": errString(res.Err), "wire": res.Wire})
 				} else if len(samples) < 3 && len(log) >= 2 && evals%211 == 0 {
 					samples = append(samples, map[string]interface{}{"input": input, "progs": v.Progs, "observed": log, "outcome": oc})
 				}
